@@ -1026,7 +1026,9 @@ fn parse_till<'s>(cursor: &mut Cursor<'s>, end_delim: u8) -> Result<&'s str, Err
                 ),
             ));
         } else {
-            cursor.advance(1);
+            // keys may contain multi-byte characters
+            let width = cursor.rest().chars().next().map_or(1, char::len_utf8);
+            cursor.advance(width);
         }
     }
     // don't include the closing delimiter
